@@ -92,4 +92,18 @@ def Layers.purposeAt (ls1 : Layers) (key : Nat) (purposenum : Int) : Option (Lay
 def Layers.getOrInsert (ls : Layers) (layernum purposenum : Int) : Option (Layers × Nat × Purpose) :=
   (ls.ensure layernum).1.purposeAt (ls.ensure layernum).2 purposenum
 
+/-- `LefImporter::import_layer`: the key of the layer NAMED `name`, creating it under the next free number -/
+def Layers.importByName (ls : Layers) (name : Bytes) : Option (Layers × Nat) :=
+  match ls.keyname name with
+  | some k => some (ls, k)
+  | none => match ls.nextnum with
+    | some n => some (ls.add ⟨n, some name, [], []⟩)
+    | none => none
+
+/-- what an exporter computes for an element: (layer number, purpose number) — `export_layerspec` -/
+def Layers.layerspec (ls : Layers) (key : Nat) (p : Purpose) : Option (Int × Int) :=
+  match ls.slots[key]? with
+  | some l => (l.num p).map fun n => (l.layernum, n)
+  | none => none
+
 end L21.Layers
